@@ -24,6 +24,8 @@ import json, os, re, shutil, subprocess, sys
 VERIF = os.path.dirname(os.path.dirname(os.path.abspath(__file__)))
 
 # source file (relative to src/)  ->  stem of the child module file
+CORE_CHILDREN = {"astro"}   # constructors for the astro types used by the shared helpers in kani/mod.rs
+
 CHILD_MODULES = {
     "lib.rs": "lib_root",
     "angle.rs": "angle",
@@ -68,7 +70,9 @@ def _subst_hashmap(text):
     return "\n".join(out)
 
 
-def inject(dest, with_kani=True, with_rt=True, map_subst=True):
+def inject(dest, with_kani=True, with_rt=True, map_subst=True, kani_needed=None):
+    """kani_needed: stems of the child/root harness modules to compile (None = all). Harness modules of other
+    properties are left out so that a change which breaks their compilation cannot make this property undecided."""
     src = os.path.join(dest, "src")
     report = {"appended_child_modules": [], "contracts_inserted": [], "map_subst": []}
     # copy module files
@@ -135,7 +139,7 @@ def inject(dest, with_kani=True, with_rt=True, map_subst=True):
         t = open(p).read()
         add = ""
         kf = os.path.join(src, "verif_kani", "child_%s.rs" % stem)
-        if with_kani and os.path.exists(kf):
+        if with_kani and os.path.exists(kf) and (kani_needed is None or stem in kani_needed or stem in CORE_CHILDREN):
             add += '\n#[cfg(kani)]\n#[path = "%s"]\npub(crate) mod verif_kani_child;\n' % kf
         rf = os.path.join(src, "verif_rt", "child_%s.rs" % stem)
         if with_rt and os.path.exists(rf):
@@ -150,6 +154,10 @@ def inject(dest, with_kani=True, with_rt=True, map_subst=True):
     tail = ""
     if with_kani and os.path.exists(os.path.join(src, "verif_kani", "mod.rs")):
         tail += "\n#[cfg(kani)]\npub(crate) mod verif_kani;\n"
+        if kani_needed is not None and "c18" not in kani_needed:
+            mp = os.path.join(src, "verif_kani", "mod.rs")
+            mtxt = open(mp).read().replace("pub mod c18;\n", "")
+            open(mp, "w").write(mtxt)
     if with_rt and os.path.exists(os.path.join(src, "verif_rt", "mod.rs")):
         tail += "\n#[cfg(ipt_verif_rt)]\npub mod verif_rt;\n"
         bind = os.path.join(src, "bin")
